@@ -573,7 +573,7 @@ func cwJudge(imgDir, wl, prefix string, acked int, ackResults []string, emit fun
 
 func init() {
 	seqChecks["c12"] = &seqCheck{run: runC12, replay: nil,
-		rule: "workloads W1-W4 x prefix {set, empty} x {plain store, store with QueryStore} recorded once each under strace; every prefix of the recorded file-operation log (a process kill between two syscalls) and, for every value-log write, torn images cut at 1, n/2, n-1 (quick) / every byte (thorough), each reopened with the real BadgerDB and judged against the acknowledgements that precede the crash point; distinct = images whose recovered content differs"}
+		rule: "workloads W1-W4 x prefix {'ba' (sharing its characters with the ids), empty} x {plain store, store with QueryStore} recorded once each under strace; every prefix of the recorded file-operation log (a process kill between two syscalls) and, for every value-log write, torn images cut at 1, n/2, n-1 (quick) / every byte (thorough), each reopened with the real BadgerDB and judged against the acknowledgements that precede the crash point; distinct = images whose recovered content differs"}
 }
 
 func runC12(c *seqCtx) {
@@ -594,7 +594,8 @@ func runC12(c *seqCtx) {
 	distinct := map[string]bool{}
 	n := 0
 	for _, wl := range []string{"W1", "W2", "W3", "W4"} {
-		for _, prefix := range []string{"p", ""} {
+		// the set prefix shares its characters with the ids (a, b, ba. ...): prefix handling must cut by length
+		for _, prefix := range []string{"ba", ""} {
 			for _, index := range []bool{false, true} {
 				n++
 				rec := filepath.Join(root, fmt.Sprintf("rec%d", n))
